@@ -27,7 +27,7 @@ ASSUMPTIONS = ['curve points are compared with 10^model_fluxes mJy x nu in erg/c
                'apertures are generated with >= 2 distinct values so that "smallest" and "largest" differ',
                'aperture radii are kept below the largest tabulated aperture by >= 2 % (the 0.999 clamp of interpolate_variable is outside the statement)']
 PROBES = ['mode_interp', 'mode_largest', 'mode_largest+smallest', 'mode_all', 'multi_aperture', 'single_aperture', 'channel_path', 'channel_obj',
-          'consumer_before_plot', 'plot_memmap_off', 'f4_storage', 'fewer_models_than_requested', 'best_fit_last_checked', 'wavelengths_in_other_unit']
+          'consumer_before_plot', 'plot_memmap_off', 'f4_storage', 'fewer_models_than_requested', 'best_fit_last_checked', 'wavelengths_in_other_unit', 'prelude_epoch']
 
 
 def budgets(tier):
@@ -52,6 +52,9 @@ def generate(rng, tier, idx):
                       'memmap': rng.random() < 0.5, 'before': rng.choice([None, None, 'wp', 'ep']),
                       'show_convolved': rng.random() < 0.3, 'plot_max': rng.choice([None, None, None, 2])})
     sc['steps'] = steps
+    if rng.random() < 0.3:
+        from ..author import prelude_spec
+        sc['prelude'] = {'world': prelude_spec(w, rng), 'seed': rng.randrange(1 << 30)}
     return sc
 
 
@@ -73,6 +76,19 @@ def _execute(sc, sim, out):
     spec = sc['world']
     W = World(spec)
     apdep = W.apdep
+    if sc.get('prelude'):
+        # the previous occupant of the directory: same names and layout, other numbers; fitted and plotted in this process
+        Wp = World(sc['prelude']['world'])
+        dp = Wp.write(sim.path('pkg'), fmt=2)
+        out.probe('prelude_epoch')
+        sim.fired('prelude_epoch')
+        rp0 = pipe.call(pipe.Fitter, [x * u.micron for x in Wp.wav[:2]], [3.0, 3.0] * u.arcsec, dp, extinction_law=Wp.extinction(),
+                        av_range=[0., 1.], distance_range=[1., 1.] * u.kpc, use_memmap=False)
+        if rp0[0] == 'ok':
+            rp1 = pipe.call(rp0[1].fit, make_source({'name': 'old', 'x': 0., 'y': 0., 'valid': [1, 1], 'flux': [1., 2.], 'error': [.1, .1]}))
+            if rp1[0] == 'ok':
+                for mm in (True, False):
+                    pipe.call(plot, rp1[1], select_format=('N', 1), sed_type='largest', memmap=mm)
     d = W.write(sim.path('pkg'), fmt=2)
     rng = random.Random(sc['idx_seed'])
     nf = min(sc['nf'], W.n_wav)
@@ -199,6 +215,8 @@ def _execute(sc, sim, out):
 
 
 def lowerings(sc, viol=None):
+    if sc.get('prelude'):
+        yield dict(sc, prelude=None)
     for i, st in enumerate(sc['steps']):
         for key, val in (('before', None), ('channel', 'obj'), ('memmap', True), ('nsel', 1)):
             if st[key] != val:
